@@ -471,7 +471,17 @@ def enum_rule(ctx):
         for s in sites:
             check_reader(ctx, r, s, Q)
     elif pm.contains("xtuml.sort_reflexive(_S, 56, 'succeeds')", fn) or pm.contains("sort_reflexive(_S, 56, 'succeeds')", fn):
-        r.ok('enumerators are sorted along R56', fn, construct=Q)
+        # the SORTED sequence must be what the numbering loop walks (sort_reflexive returns a new sequence; it does not sort in place)
+        from .common import resolve_locals
+        nf_ = repo.nfunc(Q)
+        loops_ = [n for n in ast.walk(nf_) if isinstance(n, (ast.For, ast.comprehension))]
+        its_ = [resolve_locals(nf_, n.iter, pure_only=False) for n in loops_]
+        sorted_ = [i_ for i_ in its_ if pm.match("xtuml.sort_reflexive(_S, 56, 'succeeds')", i_) is not None or
+                   pm.match("sort_reflexive(_S, 56, 'succeeds')", i_) is not None]
+        raw_ = [i_ for i_ in its_ if 'S_ENUM[27]' in src(i_) and i_ not in sorted_ and 'sort_reflexive' not in src(i_)]
+        r.check(bool(sorted_) and not raw_, 'the numbering loop walks the enumerators sorted along R56', fn, construct=Q, key='unordered-enumerators',
+                msg='mk_enum calls sort_reflexive but numbers the enumerators by walking `%s`: the sorted sequence is discarded (sort_reflexive does '
+                    'not sort in place), so values depend on the order of rows in the model file' % (src(raw_[0]) if raw_ else '?'))
     else:
         r.violation('mk_enum numbers the enumerators in the iteration order of the unordered link R27 (`%s`); the modelled order '
                     'is the succession R56, so values depend on the order of rows in the model file'
